@@ -353,6 +353,7 @@ fn compare_pkg(pkg: &Pkg, out: &run::RunOutput, rp: &RenderProp, only_keys: Opti
         }
         let mut classes = std_key_classes(k);
         classes.extend((rp.classes)(k));
+        classes.extend(crate::plan::count_reuse_classes(k));
         infos.push(CaseInfo {
             hash: k.hash,
             nontrivial: (rp.nontrivial)(k),
@@ -416,6 +417,7 @@ fn compare_flavours(pkg: &Pkg, out: &run::RunOutput, rp: &RenderProp, only_keys:
         }
         let mut classes = std_key_classes(k);
         classes.extend((rp.classes)(k));
+        classes.extend(crate::plan::count_reuse_classes(k));
         infos.push(CaseInfo {
             hash: k.hash,
             nontrivial: (rp.nontrivial)(k),
@@ -896,20 +898,38 @@ pub fn c05() -> RenderProp {
 pub fn c06() -> RenderProp {
     RenderProp {
         id: "C06",
-        cfg: |_| GenCfg {
-            locales: (1, 3),
-            p_namespaces: 30,
-            keys: (5, 8),
-            sub_depth: 2,
-            w_kinds: [3, 6, 2, 2, 2, 2, 14],
-            p_null: 8,
-            p_absent: 3,
-            p_kind_varies: 10,
-            p_inherits: 40,
-            max_pieces: 5,
-            max_comp_depth: 3,
-            fk_to_null: true,
-            ..GenCfg::default()
+        cfg: |t| {
+            let base = GenCfg {
+                locales: (1, 3),
+                p_namespaces: 30,
+                keys: (5, 8),
+                sub_depth: 2,
+                w_kinds: [3, 6, 2, 2, 2, 2, 14],
+                p_null: 8,
+                p_absent: 3,
+                p_kind_varies: 10,
+                p_inherits: 40,
+                max_pieces: 5,
+                max_comp_depth: 3,
+                fk_to_null: true,
+                ..GenCfg::default()
+            };
+            if t.chance(1, 5) {
+                // long substituted values: 4-8 references to targets of 4-8 pieces each (more than 26 pieces after
+                // substitution: the generated views chunk them into nested tuples)
+                GenCfg {
+                    keys: (3, 5),
+                    locales: (1, 2),
+                    w_kinds: [1, 8, 1, 1, 1, 1, 4],
+                    min_pieces: 4,
+                    max_pieces: 8,
+                    max_comp_depth: 2,
+                    fk_refs_min: 4,
+                    ..base
+                }
+            } else {
+                base
+            }
         },
         opts: PlanOpts {
             assignments: 2,
@@ -920,9 +940,16 @@ pub fn c06() -> RenderProp {
         packages: (40, 640),
         tape_len: 2500,
         nontrivial: |k| k.fk_depth >= 2 || (k.fk_depth >= 1 && (k.defaulted_any || k.has_range || k.has_plural)),
-        classes: no_classes,
+        classes: |k| {
+            let mut c = vec![];
+            if k.fk_depth >= 1 && k.per_locale.iter().any(|(_, r)| r.len() > 26) {
+                c.push("reference-key-with-more-than-26-top-level-pieces-after-substitution".to_string());
+            }
+            c
+        },
         rule: "generated packages with acyclic `$t` reference graphs (targets of every kind, other namespaces, subkey paths, null / \
-               inherited targets; string / number / bool / interpolated arguments, literal and renamed counts); every (locale, key, 2 \
+               inherited targets; string / number / bool / interpolated arguments, literal and renamed counts; one package in five concatenates 4-8 references to \
+               4-8 piece targets, giving values of more than 26 pieces after substitution); every (locale, key, 2 \
                assignments) observed through td_string! and td!(..).to_html(); oracle = structural substitution on the AST. one case = \
                one key; non-trivial = reference chain of depth >=2, or a reference to a range / plural / defaulted key; distinct = hash of \
                the resolved values",
